@@ -68,6 +68,7 @@ def check(repo, tier="quick"):
     res.rule("C26.b", "every target the description program reads is a declared entry of its context type (entry_objs[target] cannot miss)")
     res.rule("C26.c", "in BitstreamViewer.run the termination/EOF/interrupt handlers precede the generic handler; 255 is returned only under is_internal_error; is_internal_error resets on description-program frames")
     res.rule("C26.d", "the monitor formats list elements with a total formatter and reads the value it was just given")
+    res.rule("C26.e", "every container access (subscript) in the viewer's monitor code is total: declared-list key, index from range(len(same container)), target-keyed entry lookup, fixed tuple position")
 
     acc = formatter_accepts(repo)
     res.info["formatters"] = {k: sorted(v) for k, v in acc.items()}
@@ -111,6 +112,9 @@ def check(repo, tier="quick"):
     res.info["value_targets_checked"] = n
     rule_c(repo, res)
     rule_d(repo, res)
+    rule_e(repo, res, sm)
+    rule_mixin(repo, res)
+    res.floor("C26.e", 12)
     res.floor("C26.a", 80)
     res.floor("C26.b", 80)
     res.floor("C26.c", 4)
@@ -158,15 +162,200 @@ def rule_c(repo, res):
     res.check(ok, "C26.c", "is_internal_error:frame-rule", "%s:is_internal_error" % im.rel, "is_internal_error must start False, become True at frames of the viewer's file and False again at frames of bitstream/vc2.py", by="last relevant frame decides")
 
 
+MONITOR_METHODS = ("__call__", "_print_value", "_print_omitted_bits", "_print_internal_state", "_update_status_line", "_hide_status_line")
+
+# Container accesses in the monitor that are safe for a reason outside the
+# viewer file.  (container expression suffix, key) -> reason, each re-verified
+# below from the description program / serdes source.
+SANCTIONED_KEYS = {
+    ("context", "sequences"): "parse_stream declares the 'sequences' list before any value is read",
+    ("sequence", "data_units"): "parse_sequence declares the 'data_units' list before any value is read",
+}
+
+
+def _guards(node, stop):
+    """[(test, polarity)] of the if-statements enclosing node, innermost first"""
+    out = []
+    c, p = node, getattr(node, "_parent", None)
+    while p is not None and c is not stop:
+        if isinstance(p, ast.If):
+            if any(c is x for x in p.body):
+                out.append((p.test, True))
+            elif any(c is x for x in p.orelse):
+                out.append((p.test, False))
+        c, p = p, getattr(p, "_parent", None)
+    return out
+
+
 def rule_d(repo, res):
     m, cls = repo.cls(VIEWER + ":BitstreamViewer")
     pv = class_methods(cls).get("_print_value")
     if pv is None:
         raise AnalysisError("anchor vanished: BitstreamViewer._print_value")
     where = "%s:BitstreamViewer._print_value" % m.rel
-    t = norm(pv)
-    # formatter lookup guarded by hasattr(entry_objs), fallback str
-    ok = "if hasattr(self._serdes.cur_context, 'entry_objs'):" in t and "else: formatter = str" in t
-    res.check(ok, "C26.d", "_print_value:formatter-lookup-guarded", where, "the entry_objs lookup must be guarded by hasattr(cur_context, 'entry_objs') with str as the fallback", by="guarded lookup, str fallback")
-    ok = "if self._serdes.cur_context[target] is not value:" in t and "getattr(formatter, 'formatter', str)" in t
-    res.check(ok, "C26.d", "_print_value:list-elements", where, "list elements (context value is not the value just read) must be formatted through a total fallback", by="getattr(formatter, 'formatter', str)")
+    params = [a.arg for a in pv.args.args]
+    target_p, value_p = params[3], params[4]
+    # the callable applied to the value that was read
+    fvars = set()
+    for n in ast.walk(pv):
+        if isinstance(n, ast.Call) and isinstance(n.func, ast.Name) and len(n.args) == 1 and isinstance(n.args[0], ast.Name) and n.args[0].id == value_p and n.func.id not in ("str", "repr"):
+            fvars.add(n.func.id)
+    if len(fvars) != 1:
+        raise AnalysisError("_print_value: the formatter applied to the value was not found (%s)" % sorted(fvars))
+    fv = fvars.pop()
+    defs = [n for n in ast.walk(pv) if isinstance(n, ast.Assign) and any(isinstance(t, ast.Name) and t.id == fv for t in n.targets)]
+    lookup_ok = True
+    n_lookup = 0
+    bad_defs = []
+    list_ok = False
+    for d in defs:
+        v = d.value
+        if isinstance(v, ast.Name) and v.id == "str":
+            continue
+        if isinstance(v, ast.Attribute) and v.attr == "to_string" and isinstance(v.value, ast.Name):
+            # one local alias step: entry = <context>.entry_objs[target]; formatter = entry.to_string
+            al = [a for a in ast.walk(pv) if isinstance(a, ast.Assign) and any(isinstance(t, ast.Name) and t.id == v.value.id for t in a.targets) and not (isinstance(a.value, ast.Constant) and a.value.value is None)]
+            if len(al) == 1 and _guards(al[0], pv) and [id(t) for t, _ in _guards(al[0], pv)] == [id(t) for t, _ in _guards(d, pv)]:
+                v = ast.Attribute(value=al[0].value, attr="to_string", ctx=ast.Load())
+        if isinstance(v, ast.Attribute) and v.attr == "to_string" and isinstance(v.value, ast.Subscript) and isinstance(v.value.value, ast.Attribute) and v.value.value.attr == "entry_objs" and dotted(v.value.slice) == target_p:
+            n_lookup += 1
+            obj = norm(v.value.value.value)
+            g = _guards(d, pv)
+            if not any(pol and isinstance(t, ast.Call) and dotted(t.func) == "hasattr" and len(t.args) == 2 and norm(t.args[0]) == obj and const_str(t.args[1]) == "entry_objs" for t, pol in g):
+                lookup_ok = False
+            continue
+        if isinstance(v, ast.Call) and dotted(v.func) == "getattr" and len(v.args) == 3 and isinstance(v.args[2], ast.Name) and v.args[2].id == "str":
+            # total: falls back to str when the attribute is missing
+            g = _guards(d, pv)
+            if any(pol and isinstance(t, ast.Compare) and isinstance(t.ops[0], ast.IsNot) and dotted(t.comparators[0]) == value_p for t, pol in g):
+                list_ok = True
+            continue
+        bad_defs.append(short(d, 100))
+    res.check(n_lookup >= 1 and lookup_ok and not bad_defs, "C26.d", "_print_value:formatter-lookup-guarded", where, ("the formatter applied to the value is assigned by %s: only str, <context>.entry_objs[target].to_string under hasattr(<context>, 'entry_objs'), or getattr(..., ..., str) are total" % bad_defs) if bad_defs else "the entry_objs lookup must be guarded by hasattr(cur_context, 'entry_objs') with str as the fallback", by="guarded lookup, str fallback")
+    res.check(list_ok and not bad_defs, "C26.d", "_print_value:list-elements", where, "list elements (context value is not the value just read) must be formatted through a total fallback (getattr(formatter, name, str))", by="getattr(formatter, 'formatter', str)")
+    # Entry.to_string exists
+    fm, ecls = repo.cls("fixeddict:Entry")
+    res.check("to_string" in class_methods(ecls), "C26.d", "Entry.to_string:defined", "%s:Entry" % fm.rel, "fixeddict.Entry must define to_string", by="defined")
+
+
+def rule_e(repo, res, sm):
+    """C26.e: container accesses of the monitor are total."""
+    m, cls = repo.cls(VIEWER + ":BitstreamViewer")
+    meth = class_methods(cls)
+    # the monitor's own call closure inside the class
+    todo, seen = ["__call__"], []
+    while todo:
+        f = todo.pop()
+        if f in seen or f not in meth:
+            continue
+        seen.append(f)
+        for n in ast.walk(meth[f]):
+            if isinstance(n, ast.Call) and isinstance(n.func, ast.Attribute) and isinstance(n.func.value, ast.Name) and n.func.value.id == "self" and n.func.attr in meth:
+                todo.append(n.func.attr)
+    res.info["monitor_methods"] = sorted(seen)
+    if not {"__call__", "_print_value"} <= set(seen):
+        raise AnalysisError("monitor closure lost _print_value: %s" % seen)
+    # verify the sanction reasons from the description program
+    first_ops = {}
+    for fn_name, want in (("parse_stream", "sequences"), ("parse_sequence", "data_units")):
+        ops = sm.ops(fn_name)
+        lead = None
+        for o in ops:
+            if o.op == "declare_list" and want in o.targets:
+                lead = True
+                break
+            if o.kind in ("int", "bool", "bitarray", "bytes") or o.op in ("subcontext_enter", "call"):
+                lead = False
+                break
+        first_ops[want] = bool(lead)
+    for f in seen:
+        fn = meth[f]
+        where = "%s:BitstreamViewer.%s" % (m.rel, f)
+        for n in ast.walk(fn):
+            if not isinstance(n, ast.Subscript) or isinstance(n.slice, ast.Slice):
+                continue
+            key = "%s:%s" % (f, short(n, 70))
+            k = const_str(n.slice)
+            cont = n.value
+            # (1) sanctioned declared-list keys
+            if k is not None:
+                suffix = cont.attr if isinstance(cont, ast.Attribute) else (cont.id if isinstance(cont, ast.Name) else None)
+                if (suffix, k) in SANCTIONED_KEYS:
+                    res.check(first_ops.get(k, False), "C26.e", key, where, "%r is no longer declared before the first value of its context is read, so the monitor's lookup can miss" % k, by=SANCTIONED_KEYS[(suffix, k)])
+                    continue
+            # (2) index drawn from range(len(<same container>))
+            if isinstance(n.slice, ast.Name):
+                ok = False
+                p = getattr(n, "_parent", None)
+                while p is not None and p is not fn:
+                    if isinstance(p, ast.For) and isinstance(p.target, ast.Name) and p.target.id == n.slice.id:
+                        it = p.iter
+                        if isinstance(it, ast.Call) and dotted(it.func) == "reversed" and it.args:
+                            it = it.args[0]
+                        if isinstance(it, ast.Call) and dotted(it.func) == "range" and len(it.args) == 1 and isinstance(it.args[0], ast.Call) and dotted(it.args[0].func) == "len" and norm(it.args[0].args[0]) == norm(cont):
+                            resized = [c for c in ast.walk(p) if isinstance(c, ast.Call) and isinstance(c.func, ast.Attribute) and c.func.attr in ("pop", "append", "remove", "insert", "clear", "extend") and norm(c.func.value) == norm(cont)] + [c for c in ast.walk(p) if isinstance(c, ast.Delete)]
+                            ok = not resized
+                    p = getattr(p, "_parent", None)
+                if ok:
+                    res.ok("C26.e", key, where, by="index ranges over range(len(%s)), container not resized in the loop" % short(cont, 40))
+                    continue
+                # (3) entry_objs[target] / cur_context[target] with the monitor's target parameter
+                params = [a.arg for a in fn.args.args]
+                if isinstance(cont, ast.Attribute) and cont.attr in ("entry_objs", "cur_context") and n.slice.id in params and n.slice.id == "target":
+                    res.ok("C26.e", key, where, by="keyed by the target just read (declared entry: C26.b; the value is stored before the monitor is called)")
+                    continue
+            # (4) constant index into a tuple-returning call / last element of a non-empty path
+            if isinstance(n.slice, ast.Constant) and isinstance(n.slice.value, int):
+                if isinstance(cont, ast.Call) and dotted(cont.func) == "get_terminal_size" and n.slice.value in (0, 1):
+                    res.ok("C26.e", key, where, by="fixed position of the (columns, lines) pair")
+                    continue
+            if isinstance(n.slice, ast.UnaryOp) and isinstance(n.slice.op, ast.USub) and isinstance(n.slice.operand, ast.Constant) and n.slice.operand.value == 1 and isinstance(cont, ast.Name):
+                defs = [a for a in ast.walk(fn) if isinstance(a, ast.Assign) and any(isinstance(t, ast.Name) and t.id == cont.id for t in a.targets)]
+                if len(defs) == 1 and isinstance(defs[0].value, ast.Call) and isinstance(defs[0].value.func, ast.Attribute) and defs[0].value.func.attr == "path" and len(defs[0].value.args) == 1 and dotted(defs[0].value.args[0]) == "target":
+                    res.check(_path_nonempty(repo), "C26.e", key, where, "SerDes.path(target) no longer appends the target for a non-None argument", by="SerDes.path(target) ends with the target: non-empty")
+                    continue
+            res.bad("C26.e", key, where, "container access `%s` in the viewer's monitor is not of a form known to be total (declared-list key, index from range(len(same container)), target-keyed entry lookup): an IndexError/KeyError here is raised from the viewer's own frame and reported as an internal error (status 255)" % short(n, 80))
+
+
+def rule_mixin(repo, res):
+    """the monitor runs after the primitive has stored its value, with (serdes, target, value)"""
+    m, cls = repo.cls("bitstream.serdes:MonitoredMixin")
+    n = 0
+    for name, fn in class_methods(cls).items():
+        if name.startswith("__"):
+            continue
+        where = "%s:MonitoredMixin.%s" % (m.rel, name)
+        body = [b for b in fn.body if not (isinstance(b, ast.Expr) and isinstance(b.value, ast.Constant))]
+        ok = len(body) == 3
+        if ok:
+            a, b, c = body
+            tp = fn.args.args[1].arg
+            ok = (isinstance(a, ast.Assign) and isinstance(a.value, ast.Call) and isinstance(a.value.func, ast.Attribute) and a.value.func.attr == name and isinstance(a.value.func.value, ast.Call) and dotted(a.value.func.value.func) == "super"
+                  and a.value.args and dotted(a.value.args[0]) == tp and isinstance(a.targets[0], ast.Name))
+            if ok:
+                v = a.targets[0].id
+                ok = (isinstance(b, ast.Expr) and isinstance(b.value, ast.Call) and dotted(b.value.func) == "self.monitor" and [dotted(x) for x in b.value.args] == ["self", tp, v]
+                      and isinstance(c, ast.Return) and dotted(c.value) == v)
+        res.check(ok, "C26.e", "MonitoredMixin.%s:monitor-after-store" % name, where, "the monitored primitive must be `value = super().%s(target, ...); self.monitor(self, target, value); return value`" % name, by="monitor(self, target, value) after the primitive")
+        n += 1
+    if n < 6:
+        raise AnalysisError("MonitoredMixin: only %d monitored primitives found" % n)
+
+
+def _path_nonempty(repo):
+    m, cls = repo.cls("bitstream.serdes:SerDes")
+    fn = class_methods(cls).get("path")
+    if fn is None:
+        return False
+    # `if target is not None: full_target_stack += [target]` and one out.append per zipped element
+    grows = False
+    for n in ast.walk(fn):
+        if isinstance(n, ast.If) and isinstance(n.test, ast.Compare) and isinstance(n.test.ops[0], ast.IsNot) and dotted(n.test.left) == "target":
+            adds = [b for b in n.body if isinstance(b, ast.AugAssign) and isinstance(b.op, ast.Add) and isinstance(b.value, ast.List) and len(b.value.elts) == 1]
+            grows = len(adds) >= 3
+    appends = False
+    for n in ast.walk(fn):
+        if isinstance(n, ast.For) and isinstance(n.iter, ast.Call) and dotted(n.iter.func) == "zip" and len(n.iter.args) == 3:
+            first = n.body[0]
+            appends = isinstance(first, ast.Expr) and isinstance(first.value, ast.Call) and isinstance(first.value.func, ast.Attribute) and first.value.func.attr == "append"
+    return grows and appends
